@@ -22,14 +22,14 @@ from vlib import enc_str, enc_list, dec_list, dec_str
 
 THEOREMS = [
     "C16_units", "C16_units_cmd", "C16_units_last", "C16_units_cut", "C16_substr_length", "C16_split",
-    "C16_split_cmd", "C16_split_pieces", "C16_substr", "C16_substr_total", "C16_substr1", "C16_substr2",
-    "C16_substr_cmd_nopanic", "C16_substr_cmd3", "C16_range", "C16_range_interval", "C16_range_errors",
-    "C16_parse_show", "C16_parse_range", "C16_parse_grammar", "C16_length", "C16_length_bounds",
-    "C16_indexof", "C16_indexof_none", "C16_last_indexof", "C16_last_indexof_none", "C16_contains",
-    "C16_starts_with", "C16_ends_with", "C16_equals", "C16_is_empty", "C16_concat", "C16_replace",
-    "C16_replace_absent", "C16_replace_same", "C16_trim", "C16_trim_start", "C16_trim_end",
-    "C16_compare_partial", "C16_compare_errors", "C16_calc_partial", "C16_spec_find", "C16_spec_rfind",
-    "C16_spec_slice", "C16_slice", "C16_never_ood", "C16_nonvacuous",
+    "C16_split_cmd", "C16_split_pieces", "C16_split_rec", "C16_substr", "C16_substr_total", "C16_substr1",
+    "C16_substr2", "C16_substr_cmd_nopanic", "C16_substr_cmd3", "C16_substr_cmd", "C16_range",
+    "C16_range_interval", "C16_range_errors", "C16_parse_show", "C16_parse_range", "C16_parse_grammar",
+    "C16_length", "C16_length_bounds", "C16_indexof", "C16_indexof_none", "C16_last_indexof",
+    "C16_last_indexof_none", "C16_contains", "C16_starts_with", "C16_ends_with", "C16_equals",
+    "C16_is_empty", "C16_concat", "C16_replace", "C16_replace_absent", "C16_replace_same", "C16_trim",
+    "C16_trim_start", "C16_trim_end", "C16_compare_partial", "C16_compare_errors", "C16_calc_partial",
+    "C16_spec_find", "C16_spec_rfind", "C16_spec_slice", "C16_slice", "C16_never_ood", "C16_nonvacuous",
 ]
 
 ALPHA = ["a", "b", "é", "😀", " "]
